@@ -1,5 +1,6 @@
 mod fixtures;
 mod gen;
+mod gencomp;
 mod props;
 mod rng;
 mod runner;
@@ -71,6 +72,25 @@ fn main() {
                 Err(e) => eprintln!("INVALID: {}", e),
             }
             println!("{}", sym::print_text(&g.bytes).unwrap_or_else(|e| format!("print error {}", e)));
+        }
+        "gencomp" => {
+            let seed: u64 = args[2].parse().unwrap();
+            let n: u64 = args[3].parse().unwrap();
+            let mut rej = 0;
+            for idx in 0..n {
+                let mut r = rng::Rng::for_case(seed, "gencomp", idx);
+                let g = gencomp::generate(&mut r, 4);
+                if let Err(e) = sym::validate(&g.bytes) {
+                    rej += 1;
+                    if rej <= 5 {
+                        println!("idx {} INVALID {}", idx, e);
+                    }
+                }
+                if n == 1 {
+                    println!("{}", sym::print_text(&g.bytes).unwrap_or_else(|e| format!("print error {}", e)));
+                }
+            }
+            println!("rejects {}/{}", rej, n);
         }
         "genstats" => {
             // how often the generator is rejected, per profile
